@@ -90,6 +90,17 @@ def check(spec):
                 out.append(_ob(mod.path, qual, kind, n, s.lineno, "call of %s passes %s=%s (found: %s)" % (target, kw, want if want is not None else "<given>", vals[0] if vals else "missing"), ok))
         if n == 0:
             out.append(_ob(mod.path, qual, kind, 1, fdef.lineno, "expected a call of %s in %s (anchor lost)" % (target, qual), False))
+    elif kind == "posarg":
+        # call of `callee` passes the literal `value` as positional argument `index` (or as keyword `keyword`)
+        target, idx, want = spec["callee"], spec["index"], spec["value"]
+        for s in ast.walk(fdef):
+            if isinstance(s, ast.Call) and _callee_name(s) == target:
+                n += 1
+                found = ast.unparse(s.args[idx]) if len(s.args) > idx and not any(isinstance(a, ast.Starred) for a in s.args) else \
+                    next((ast.unparse(k.value) for k in s.keywords if k.arg == spec.get("keyword")), "missing")
+                out.append(_ob(mod.path, qual, kind, n, s.lineno, "call of %s passes %s as argument %d (found: %s)" % (target, want, idx, found), _norm(found) == _norm(want)))
+        if n == 0:
+            out.append(_ob(mod.path, qual, kind, 1, fdef.lineno, "expected a call of %s in %s (anchor lost)" % (target, qual), False))
     elif kind == "no-mutator":
         params = {a.arg for a in fdef.args.args if a.arg != "self"}
         aliases = set(params)
